@@ -220,7 +220,7 @@ impl<'r> Gen<'r> {
                 6 if self.cfg.value_prims => G::OneOf(self.symset()),
                 7 if self.cfg.value_prims => G::NoneOf(self.symset()),
                 8 if self.cfg.value_prims => G::Select(self.symset()),
-                9 if self.rng.chance(1, 2) => G::CustomApi(self.rng.below(3) as u8, self.sym()),
+                9 if self.rng.chance(1, 2) => G::CustomApi(self.rng.below(4) as u8, self.sym()),
                 9 => {
                     let a = self.sym();
                     let mut b = self.sym();
@@ -808,6 +808,13 @@ pub fn sample(g: &G, rng: &mut Rng, nsym: u8, out: &mut Vec<u8>, fuel: &mut i64,
         OneOf(v) | Select(v) | SelectRef(v) => out.push(*rng.pick(v)),
         NoneOf(v) => out.push(other(v, rng)),
         Custom(a, _) => out.push(*a),
+        CustomApi(3, _) => {
+            // the checkpoint shuffle steps over up to five tokens of any kind; often it is the last
+            // thing in the input, so that one of its checkpoints is the end of input
+            for _ in 0..rng.range(1, 5) {
+                out.push(rng.below(nsym as u64) as u8);
+            }
+        }
         CustomApi(k, a) => {
             out.push(*a);
             if *k >= 1 && rng.chance(1, 2) {
